@@ -287,3 +287,212 @@ example : C01.Binds (stateAfter (evalStatements 6 (C06.copyThenIndexAssign "a" "
     ⟨by decide, rfl, by decide, by decide⟩ (by decide) rfl (Or.inl rfl) (by decide) (by decide)).2
 
 end Grol.E
+
+/-! ## maps -/
+namespace Grol.E
+
+/-- `evalIndexAssignment` on a map bound at top level (any number of pairs), plain key and value: the name is
+rebound to what `Map.Set` (`mapSet`) builds -/
+theorem C06.indexAssign_map_top {ext store} (name : String) (big : Bool) (kvs : List (Obj × Obj)) (key val : Obj)
+    (big' : Bool) (kvs' : List (Obj × Obj)) (st : St)
+    (h : C06.Top ext store st) (ho : C06.Ordinary ext name)
+    (hl : lookupStore store name = some (.map big kvs))
+    (hkey : ∀ e m, key ≠ .ref e m) (hval : ∀ e m, val ≠ .ref e m)
+    (hm : mapSet st.cfg big kvs key val = .ok (big', kvs')) :
+    ∃ s1, run (evalIndexAssignment (.ident name) key val) st = (.ok val, s1)
+      ∧ C06.Top ext (setStore store name (.map big' kvs')) s1 := by
+  have hpm : ∀ e m, Obj.map big kvs ≠ .ref e m := fun _ _ => Obj.noConfusion
+  unfold evalIndexAssignment
+  simp only [run_bind, C01.run_valueOf_plain key hkey, C01.run_valueOf_plain val hval, C01.run_curEnv,
+    C06.run_envGet_top name _ st h ho hl hpm, C01.run_valueOf_plain _ hpm, run_get, hm, run_liftR]
+  obtain ⟨s1, hn, hT1, hcur⟩ := C06.run_noteHazard big "large-map-set-delete-aliases" name st h
+  simp only [hn]
+  obtain ⟨s2, hset, hT2⟩ := C06.createOrSet_top s1 name (.map big' kvs') hT1 ho
+    (fun _ _ => Obj.noConfusion) (Or.inr ⟨_, hl, hpm⟩)
+  unfold envSet
+  rw [← hcur, hset]
+  exact ⟨s2, rfl, hT2⟩
+
+/-- the statement `name[i] = n` (integer literals), given what `evalIndexAssignment` does in every top level
+state with the same configuration -/
+theorem C06.index_assign_stmt_generic {ext store store'} (f : Nat) (name : String) (i n : Int64) (st : St)
+    (h : C06.Top ext store st)
+    (hrun : ∀ s, C06.Top ext store s → s.cfg = st.cfg →
+      ∃ s1, run (evalIndexAssignment (.ident name) (.int i) (.int n)) s = (.ok (.int n), s1) ∧ C06.Top ext store' s1) :
+    outcome (evalI (f + 4) (.inf "ASSIGN" (.idx "LBRACKET" (.ident name) (.int i)) (.int n))) st = .ok (.int n)
+    ∧ C06.Top ext store'
+        (stateAfter (evalI (f + 4) (.inf "ASSIGN" (.idx "LBRACKET" (.ident name) (.int i)) (.int n))) st) := by
+  obtain ⟨hv, hT1⟩ := C06.eval_int_top (f + 1) n (C15.bump st) h.bump
+  obtain ⟨hix, hT2⟩ := C06.eval_int_top f i _ hT1
+  have hc1 := (((allGood (f + 3)).eval (.int n)).h (C15.bump st)).1.cfg
+  have hc2 := (((allGood (f + 2)).eval (.int i)).h (stateAfter (eval (f + 3) (.int n)) (C15.bump st))).1.cfg
+  obtain ⟨s1, hrun, hT3⟩ := hrun _ hT2 (hc2.trans hc1)
+  have hasg : evalAssignment (f + 3) (.int n) "ASSIGN" (.idx "LBRACKET" (.ident name) (.int i)) =
+      (do let index ← eval (f + 2) (.int i); evalIndexAssignment (.ident name) index (.int n)) := by
+    rw [evalAssignment]; rfl
+  have key : SameRun (evalI (f + 4) (.inf "ASSIGN" (.idx "LBRACKET" (.ident name) (.int i)) (.int n))) st
+      (evalIndexAssignment (.ident name) (.int i) (.int n))
+      (stateAfter (eval (f + 2) (.int i)) (stateAfter (eval (f + 3) (.int n)) (C15.bump st))) := by
+    rw [C01.evalI_assign _ _ _ _ rfl]
+    refine (C01.sameRun_enter _ st h.1).trans ((C01.sameRun_bind_ok _ _ _ _ hv).trans ?_)
+    rw [hasg]
+    exact C01.sameRun_bind_ok _ _ _ _ hix
+  refine ⟨key.1.trans (by rw [outcome_eq_run, hrun]), ?_⟩
+  rw [key.2, stateAfter_eq_run, hrun]; exact hT3
+
+/-- **C06, statement level (T2)**: at top level, with `a` bound to a map of ANY number of pairs, running
+`b = a; b[k] = n` (ordinary names `a ≠ b`, integer literals `k`, `n`) has the value `n`, leaves `a` bound to
+the same map and binds `b` to the result of `Map.Set` on a copy (`mapSet`, assumed not to stop: keys
+comparable with `k`). -/
+theorem C06.copy_then_map_set_keeps_original {ext store} (f : Nat) (a b : String) (big : Bool)
+    (kvs : List (Obj × Obj)) (k n : Int64) (big' : Bool) (kvs' : List (Obj × Obj)) (st : St)
+    (h : C06.Top ext store st) (ha : C06.Ordinary ext a) (hb : C06.Ordinary ext b) (hab : a ≠ b)
+    (hla : lookupStore store a = some (.map big kvs))
+    (hlb : lookupStore store b = none ∨ (∃ r, lookupStore store b = some r ∧ ∀ re rn, r ≠ .ref re rn))
+    (hm : mapSet st.cfg big kvs (.int k) (.int n) = .ok (big', kvs')) :
+    outcome (evalStatements (f + 6) (C06.copyThenIndexAssign a b k n) .null) st = .ok (.int n)
+    ∧ C01.Binds (stateAfter (evalStatements (f + 6) (C06.copyThenIndexAssign a b k n) .null) st) a (.map big kvs)
+    ∧ C01.Binds (stateAfter (evalStatements (f + 6) (C06.copyThenIndexAssign a b k n) .null) st) b
+        (.map big' kvs') := by
+  have hpm : ∀ e m, Obj.map big kvs ≠ .ref e m := fun _ _ => Obj.noConfusion
+  obtain ⟨he, hT0⟩ := C06.eval_ident_top (f + 2) a (.map big kvs) (C15.bump st) h.bump ha hla hpm
+    (fun _ _ => Obj.noConfusion)
+  obtain ⟨h1, hT1⟩ := C06.assign_top (f + 3) b (.ident a) (.map big kvs) st h hb he hT0 rfl hpm hlb
+  have hc := (((allGood (f + 5)).evalI (.inf "ASSIGN" (.ident b) (.ident a))).h st).1.cfg
+  have hlb1 : lookupStore (setStore store b (.map big kvs)) b = some (.map big kvs) := lookupStore_setStore_eq _ _ _
+  obtain ⟨h2, hT2⟩ := C06.index_assign_stmt_generic (store' := setStore (setStore store b (.map big kvs)) b (.map big' kvs'))
+    f b k n _ hT1 (fun s hs hcs =>
+      C06.indexAssign_map_top b big kvs (.int k) (.int n) big' kvs' s hs hb hlb1 (fun _ _ => Obj.noConfusion)
+        (fun _ _ => Obj.noConfusion) (by rw [hcs, hc]; exact hm))
+  have key : SameRun (evalStatements (f + 6) (C06.copyThenIndexAssign a b k n) .null) st
+      (evalI (f + 4) (.inf "ASSIGN" (.idx "LBRACKET" (.ident b) (.int k)) (.int n)))
+      (stateAfter (evalI (f + 5) (.inf "ASSIGN" (.ident b) (.ident a))) st) := by
+    refine (C01.stmts_cons_continue (f + 5) _ _ .null _ st (fun hc => Node.noConfusion hc) h1 rfl).trans ?_
+    rw [C01.stmts_singleton (f + 3) _ _ (fun hc => Node.noConfusion hc)]
+    exact SameRun.refl _ _
+  refine ⟨key.1.trans h2, ?_, ?_⟩
+  · rw [key.2]
+    refine hT2.binds a _ ha ?_ hpm
+    rw [lookupStore_setStore_ne _ _ _ _ hab, lookupStore_setStore_ne _ _ _ _ hab]; exact hla
+  · rw [key.2]
+    exact hT2.binds b _ hb (lookupStore_setStore_eq _ _ _) (fun _ _ => Obj.noConfusion)
+
+end Grol.E
+
+namespace Grol.E
+
+def C06.tenPairs : List (Obj × Obj) :=
+  [(.int 0, .int 0), (.int 1, .int 10), (.int 2, .int 20), (.int 3, .int 30), (.int 4, .int 40), (.int 5, .int 50),
+   (.int 6, .int 60), (.int 7, .int 70), (.int 8, .int 80), (.int 9, .int 90)]
+def C06.stMap10 : St := { frames := #[{ store := [("a", .map true C06.tenPairs)] }] }
+
+/-- T2 applies to a 10-pair (big) map: all hypotheses hold -/
+example : C01.Binds (stateAfter (evalStatements 6 (C06.copyThenIndexAssign "a" "b" 3 77) .null) C06.stMap10) "a"
+      (.map true C06.tenPairs)
+    ∧ C01.Binds (stateAfter (evalStatements 6 (C06.copyThenIndexAssign "a" "b" 3 77) .null) C06.stMap10) "b"
+      (.map true (C06.tenPairs.set 3 (.int 3, .int 77))) :=
+  (C06.copy_then_map_set_keeps_original (ext := []) (store := [("a", .map true C06.tenPairs)]) 0 "a" "b" true
+    C06.tenPairs 3 77 true (C06.tenPairs.set 3 (.int 3, .int 77))
+    C06.stMap10 ⟨rfl, by decide, rfl, _, rfl, rfl, rfl, rfl⟩ ⟨by decide, rfl, by decide, by decide⟩
+    ⟨by decide, rfl, by decide, by decide⟩ (by decide) rfl (Or.inl rfl) rfl).2
+
+/-! ## `+` -/
+
+/-- `Eval` of a node whose rule keeps `Top` one level deeper -/
+theorem C06.eval_top2 {ext store} (f : Nat) (node : Node) (st : St) (r : Obj) (h : C06.Top ext store st)
+    (hr : outcome (evalI f node) (C01.deeper st) = .ok r)
+    (hT : C06.Top ext store (stateAfter (evalI f node) (C01.deeper st)))
+    (h1 : ∀ v kind, r ≠ .ret v kind) (h2 : ∀ e n, r ≠ .ref e n) :
+    outcome (eval (f + 1) node) st = .ok r ∧ C06.Top ext store (stateAfter (eval (f + 1) node) st) := by
+  obtain ⟨ho, hst⟩ := (C01.eval_unwrap f node st r h.depthOk hr).2.2 h1 h2
+  refine ⟨ho, ?_⟩
+  rw [hst]
+  refine ⟨hT.1, ?_, hT.3, hT.4⟩
+  have := hT.2
+  show ¬ (stateAfter (evalI f node) (C01.deeper st)).depth - 1 > (stateAfter (evalI f node) (C01.deeper st)).cfg.maxDepth
+  omega
+
+/-- the second half of `l + r` with an array of ANY length on the left: the instrumentation line may log a
+hazard entry; bindings untouched -/
+theorem C06.infixTail_array_top {ext store} (g : Nat) (l r : Node) (els : List Obj) (rv res : Obj) (s1 : St)
+    (hr : outcome (eval g r) s1 = .ok rv) (hT : C06.Top ext store (stateAfter (eval g r) s1))
+    (hre : rv.isError = false)
+    (hop : ∀ s2, run (evalInfixOp "PLUS" (.array els) rv) s2 = (.ok res, s2)) :
+    ∃ s3, run (C01.infixTail g "PLUS" l r (.array els)) s1 = (.ok res, s3) ∧ C06.Top ext store s3 := by
+  unfold C01.infixTail
+  simp only [run_bind, C06.run_of (eval g r) s1, hr, hre, Bool.false_eq_true, if_false, run_get]
+  obtain ⟨s3, hn, hT3, _⟩ := C06.run_noteHazard
+    ("PLUS" == "PLUS" && decide (els.length > (stateAfter (eval g r) s1).cfg.maxSmallArray))
+    "large-array-append-shares-capacity" (hazardBase l) _ hT
+  simp only [hn, hop]
+  exact ⟨s3, rfl, hT3⟩
+
+/-- the node `l + r`, left operand an array of any length -/
+theorem C06.plus_array_top {ext store} (g : Nat) (l r : Node) (els : List Obj) (rv res : Obj) (s : St)
+    (h : C06.Top ext store s)
+    (hl : outcome (eval g l) (C15.bump s) = .ok (.array els))
+    (hTl : C06.Top ext store (stateAfter (eval g l) (C15.bump s)))
+    (hr : ∀ s1, C06.Top ext store s1 → outcome (eval g r) s1 = .ok rv ∧ C06.Top ext store (stateAfter (eval g r) s1))
+    (hre : rv.isError = false)
+    (hop : ∀ s2, run (evalInfixOp "PLUS" (.array els) rv) s2 = (.ok res, s2)) :
+    outcome (evalI (g + 1) (.inf "PLUS" l r)) s = .ok res
+    ∧ C06.Top ext store (stateAfter (evalI (g + 1) (.inf "PLUS" l r)) s) := by
+  have k := C01.infix_continue g "PLUS" l r s (.array els) h.1 rfl hl rfl rfl rfl (by simp)
+  obtain ⟨hrv, hT2⟩ := hr _ hTl
+  obtain ⟨s3, hrun, hT3⟩ := C06.infixTail_array_top g l r els rv res _ hrv hT2 hre hop
+  refine ⟨k.1.trans (by rw [outcome_eq_run, hrun]), ?_⟩
+  rw [k.2, stateAfter_eq_run, hrun]; exact hT3
+
+/-- **C06, statement level (T3)**: at top level, `a` bound to an array `la` and `b` to an array `lb` of ANY
+lengths (within the model's allocation bound), `c` an ordinary name other than `a`, `b`: the statement
+`c = a + b` has the value `la ++ lb`, binds `c` to it, and leaves `a` bound to `la` and `b` to `lb`.
+(`a = b` is allowed: `c = a + a`.)  The depth guard must leave room for the operands (`depth + 1`). -/
+theorem C06.append_keeps_operands {ext store} (f : Nat) (a b c : String) (la lb : List Obj) (st : St)
+    (h : C06.Top ext store st) (hdepth : ¬ st.depth + 1 > st.cfg.maxDepth)
+    (ha : C06.Ordinary ext a) (hb : C06.Ordinary ext b) (hc : C06.Ordinary ext c) (hac : a ≠ c) (hbc : b ≠ c)
+    (hla : lookupStore store a = some (.array la)) (hlb : lookupStore store b = some (.array lb))
+    (hlc : lookupStore store c = none ∨ (∃ r, lookupStore store c = some r ∧ ∀ re rn, r ≠ .ref re rn))
+    (hsz : ((la.length : Int) + lb.length) ≤ sizeLimit) :
+    outcome (evalI (f + 5) (.inf "ASSIGN" (.ident c) (.inf "PLUS" (.ident a) (.ident b)))) st = .ok (.array (la ++ lb))
+    ∧ C01.Binds (stateAfter (evalI (f + 5) (.inf "ASSIGN" (.ident c) (.inf "PLUS" (.ident a) (.ident b)))) st) a (.array la)
+    ∧ C01.Binds (stateAfter (evalI (f + 5) (.inf "ASSIGN" (.ident c) (.inf "PLUS" (.ident a) (.ident b)))) st) b (.array lb)
+    ∧ C01.Binds (stateAfter (evalI (f + 5) (.inf "ASSIGN" (.ident c) (.inf "PLUS" (.ident a) (.ident b)))) st) c
+        (.array (la ++ lb)) := by
+  have hpa : ∀ (l : List Obj) e m, Obj.array l ≠ .ref e m := fun _ _ _ => Obj.noConfusion
+  have hra : ∀ (l : List Obj) w k, Obj.array l ≠ .ret w k := fun _ _ _ => Obj.noConfusion
+  have hTb : C06.Top ext store (C15.bump st) := h.bump
+  have hTd : C06.Top ext store (C01.deeper (C15.bump st)) := ⟨h.1, hdepth, h.3, h.4⟩
+  obtain ⟨hl, hTl⟩ := C06.eval_ident_top f a (.array la) _ hTd.bump ha hla (hpa la) (hra la)
+  have hop : ∀ s2, run (evalInfixOp "PLUS" (.array la) (.array lb)) s2 = (.ok (.array (la ++ lb)), s2) := by
+    intro s2
+    obtain ⟨⟨h1, h2⟩, _⟩ := C01.array_append la lb .null s2 hsz
+      ⟨fun _ => Obj.noConfusion, fun _ _ => Obj.noConfusion, fun _ => Obj.noConfusion⟩
+    rw [C06.run_of, h1, h2]
+  obtain ⟨hp, hTp⟩ := C06.plus_array_top (f + 2) (.ident a) (.ident b) la (.array lb) (.array (la ++ lb)) _ hTd hl hTl
+    (fun s1 hs1 => C06.eval_ident_top f b (.array lb) s1 hs1 hb hlb (hpa lb) (hra lb)) rfl hop
+  obtain ⟨he, hTe⟩ := C06.eval_top2 (f + 3) _ _ _ hTb hp hTp (hra _) (hpa _)
+  obtain ⟨h1, hT1⟩ := C06.assign_top (f + 3) c _ (.array (la ++ lb)) st h hc he hTe rfl (hpa _) hlc
+  refine ⟨h1, hT1.binds a _ ha ?_ (hpa _), hT1.binds b _ hb ?_ (hpa _),
+    hT1.binds c _ hc (lookupStore_setStore_eq _ _ _) (hpa _)⟩
+  · rw [lookupStore_setStore_ne _ _ _ _ hac]; exact hla
+  · rw [lookupStore_setStore_ne _ _ _ _ hbc]; exact hlb
+
+end Grol.E
+
+namespace Grol.E
+
+def C06.st10ab : St := { frames := #[{ store := [("a", .array C06.ten), ("b", .array C06.ten)] }] }
+
+/-- T3 applies to two 10-element arrays: all hypotheses hold -/
+example :
+    outcome (evalI 5 (.inf "ASSIGN" (.ident "c") (.inf "PLUS" (.ident "a") (.ident "b")))) C06.st10ab
+      = .ok (.array (C06.ten ++ C06.ten))
+    ∧ C01.Binds (stateAfter (evalI 5 (.inf "ASSIGN" (.ident "c") (.inf "PLUS" (.ident "a") (.ident "b")))) C06.st10ab)
+        "a" (.array C06.ten) :=
+  let t := C06.append_keeps_operands (ext := []) (store := [("a", .array C06.ten), ("b", .array C06.ten)]) 0 "a" "b" "c"
+    C06.ten C06.ten C06.st10ab ⟨rfl, by decide, rfl, _, rfl, rfl, rfl, rfl⟩ (by decide)
+    ⟨by decide, rfl, by decide, by decide⟩ ⟨by decide, rfl, by decide, by decide⟩
+    ⟨by decide, rfl, by decide, by decide⟩ (by decide) (by decide) rfl rfl (Or.inl rfl) (by decide)
+  ⟨t.1, t.2.1⟩
+
+end Grol.E
